@@ -214,6 +214,15 @@ CopyMap(S, P(_), Q(_, _)) == [a \in Ids |-> [w \in Vars |->
                                THEN CHOOSE i \in OnPlace(S, a, P) : TRUE ELSE 0]]
 CopyCode(S) == CopyMap(S, LAMBDA i : IsActive(S[i]), LAMBDA i, w : S[i].z[w])
 
+\* simple interpolators (CalcSimpleInterpolation: inverse distance, nearest neighbour, moving average / median,
+\* least squares) of variable 1: active, value defined; an undefined coordinate gives a distance of 1e30 (outside
+\* any neighbourhood).  The inverse distances have no such limit: the sample keeps a weight 1e-60, i.e. it decides
+\* the estimate when no datum has coordinates
+InterpData(S) == DataReq(S, <<1>>, LAMBDA i, w : IsActive(S[i]) /\ S[i].z[w] /\ S[i].c)
+\* average covariances (ACov::evalAverageDbToDb): every active sample with a non-zero weight, through its
+\* coordinates whatever they are; global_arithmetic takes Cxx and Cxv over these samples (whether their value is
+\* defined or not, and counts them in np) and the mean over the defined values
+
 \* statistics (Classical.cpp): isActive, then FFFF on the value (flagIso: on all the variables)
 StatData(S, iso) == DataVM(S, LAMBDA i, w : IsActive(S[i]) /\ S[i].z[w] /\ (iso => \A u \in Vars : S[i].z[u]))
 DeclStat(S, iso) == DataVM(S, LAMBDA i, w : SelOn(S[i]) /\ S[i].z[w] /\ (iso => \A u \in Vars : S[i].z[u]))
@@ -279,13 +288,16 @@ KNeeds == IF HasF THEN {"c", "f"} ELSE {"c"}      \* what kriging reads of a sam
 OpNames == <<"krig_u", "krig_m", "krig_mb", "neigh_u", "neigh_m", "neigh_mb", "xvalid_u", "xvalid_m",
              "vario", "vario_cov", "stat", "stat_iso", "cov", "cov_sym", "drift", "simtub", "simtub_pt", "simtub_exp", "migrate",
              "migrate_ball", "migrate_grid", "migrate_fill", "reduce",
-             "cov_req", "cov_sym_req", "drift_req", "ranks_req", "krig_on", "simtub_on", "simtub_on_grid">>
+             "cov_req", "cov_sym_req", "drift_req", "ranks_req", "krig_on", "simtub_on", "simtub_on_grid",
+             "invdist", "nearest", "movave", "movmed", "lstsqr", "avgcov", "global_arith", "global_krig">>
 Ops == Range(OpNames)
 
 \* fields read besides the values = which Reduce the operation is compared with
 NeedsOf(op) ==
   CASE op \in {"krig_u", "krig_m", "krig_mb", "xvalid_u", "xvalid_m", "simtub", "simtub_pt", "simtub_exp",
-                "krig_on", "simtub_on", "simtub_on_grid"} -> KNeeds
+                "krig_on", "simtub_on", "simtub_on_grid", "global_krig"} -> KNeeds
+    [] op \in {"invdist", "nearest", "movave", "movmed", "lstsqr", "global_arith"} -> {"c"}
+    [] op = "avgcov" -> {"c", "anyrow"}          \* reads places and selection (and weights), not the values
     [] op = "neigh_u" -> {}                  \* ANeigh promises: not masked, not all undefined (the rest is _flagDefine's)
     [] op \in {"neigh_m", "neigh_mb"} -> {"c"}
     [] op \in {"vario", "vario_cov"} -> {"c"}
@@ -301,7 +313,9 @@ NeedsOf(op) ==
 \* "tsrc" = one position (or 0) per target, "count" = numbers only
 KindOf(op) ==
   CASE op \in {"krig_u", "xvalid_u", "simtub", "simtub_pt", "simtub_exp", "stat", "stat_iso", "cov", "cov_sym", "drift",
-                "krig_on"} -> "data"
+                "krig_on", "global_krig", "invdist", "nearest", "movave", "movmed", "lstsqr"} -> "data"
+    [] op = "avgcov" -> "idx"
+    [] op = "global_arith" -> "idx2"             \* <<samples entering the average covariances, samples averaged, np>>
     [] op \in {"cov_req", "cov_sym_req", "drift_req", "ranks_req"} -> "rdata"      \* one data list per request
     [] op \in {"simtub_on", "simtub_on_grid"} -> "datacopy"     \* <<data, per place and variable the datum copied>>
     [] op \in {"krig_m", "krig_mb", "xvalid_m"} -> "tdata"
@@ -321,7 +335,10 @@ CodeReq(op, S) == [k \in DOMAIN ReqsOf(op) |-> DataReq(S, ReqsOf(op)[k],
                      LAMBDA i, w : RanksActive(S[i]) /\ S[i].z[w] /\ (UseVerr(op) /\ HasV => S[i].v))]
 
 DeclOf(op, S) ==
-  CASE op \in {"krig_u", "xvalid_u", "simtub", "simtub_pt", "simtub_exp", "krig_on"} -> DeclData(S, KNeeds)
+  CASE op \in {"krig_u", "xvalid_u", "simtub", "simtub_pt", "simtub_exp", "krig_on", "global_krig"} -> DeclData(S, KNeeds)
+    [] op \in {"invdist", "nearest", "movave", "movmed", "lstsqr"} -> DataReq(S, <<1>>, LAMBDA i, w : UsableDatum(S[i], w, {"c"}))
+    [] op = "avgcov" -> Keep(S, {"c", "anyrow"})
+    [] op = "global_arith" -> LET u == Idx(S, LAMBDA i : UsableDatum(S[i], 1, {"c"})) IN <<u, u, Len(u)>>
     [] op \in {"cov_req", "cov_sym_req", "drift_req", "ranks_req"} -> DeclReq(op, S)
     [] op \in {"simtub_on", "simtub_on_grid"} ->
          <<DeclData(S, KNeeds), CopyMap(S, LAMBDA i : TRUE, LAMBDA i, w : UsableDatum(S[i], w, KNeeds))>>
@@ -343,7 +360,12 @@ DeclOf(op, S) ==
     [] op = "reduce" -> DeclRows(S)
 
 CodeOf(op, S) ==
-  CASE op \in {"krig_u", "krig_on"} -> FlagDefine(S, NbUnique(S))
+  CASE op \in {"krig_u", "krig_on", "global_krig"} -> FlagDefine(S, NbUnique(S))
+    [] op = "invdist" -> DataReq(S, <<1>>, LAMBDA i, w : IsActive(S[i]) /\ S[i].z[w])
+    [] op \in {"nearest", "movave", "movmed", "lstsqr"} -> InterpData(S)
+    [] op = "avgcov" -> Idx(S, LAMBDA i : IsActive(S[i]))
+    [] op = "global_arith" -> <<Idx(S, LAMBDA i : IsActive(S[i])), Idx(S, LAMBDA i : IsActive(S[i]) /\ S[i].z[1]),
+                                Cardinality({i \in DOMAIN S : CountedActive(S[i])})>>      \* np = getSampleNumber(true)
     [] op \in {"cov_req", "cov_sym_req", "drift_req", "ranks_req"} -> CodeReq(op, S)
     [] op \in {"simtub_on", "simtub_on_grid"} -> <<FlagDefine(S, NbUnique(S)), CopyCode(S)>>
     [] op = "xvalid_u" -> FlagDefine(S, NbUnique(S))
@@ -376,6 +398,7 @@ ToId(op, S, x) ==
     [] KindOf(op) = "tidx"  -> [t \in Targets |-> IdxToId(S, x[t])]
     [] KindOf(op) = "tsrc"  -> [t \in DOMAIN x |-> IF x[t] <= 0 THEN x[t] ELSE S[x[t]].id]
     [] KindOf(op) = "count" -> x
+    [] KindOf(op) = "idx2" -> <<IdxToId(S, x[1]), IdxToId(S, x[2]), x[3]>>
     [] KindOf(op) = "rdata" -> [k \in DOMAIN x |-> PairsToId(S, x[k])]
     [] KindOf(op) = "datacopy" -> <<PairsToId(S, x[1]),
                                     [a \in Ids |-> [w \in Vars |-> IF x[2][a][w] = 0 THEN 0 ELSE S[x[2][a][w]].id]]>>
@@ -462,6 +485,12 @@ ModelDeviation(op, S) ==
        \*    sample without coordinates is a candidate (the selection part has been repaired in the library)
   \/ op \in {"cov", "cov_sym", "drift", "cov_req", "cov_sym_req", "drift_req"} /\ ft.coord_na
        \* D4 getRanksActive tests selection, value and Verr, not the coordinates: rows computed from 1.234e30
+  \/ op = "invdist" /\ ft.coord_na
+       \* D14 inverse distances: a datum without coordinates keeps the weight 1 / (1e30)^p
+  \/ op \in {"avgcov", "global_arith"} /\ ft.coord_na
+       \* D12 evalAverageDbToDb tests the selection and the weight only: covariances computed from 1.234e30
+  \/ op = "global_arith" /\ (ft.zall_na \/ ft.hetero)
+       \* D13 global_arithmetic: a sample whose value is undefined enters Cxx, Cxv and the count np (only the mean skips it)
   \/ op \in {"drift", "drift_req"} /\ ft.f_na
        \* D5 ... nor the external drift: the drift matrix holds 1.234e30
   \/ op \in {"krig_m", "krig_mb", "xvalid_m"} /\ ft.f_na
